@@ -41,8 +41,9 @@ RULE = ('Hypothesis: FileSpec (1-4 dims of length 1-4, 1-4 numeric variables '
         'names over variables of one shape, literals, + - * /, **2, unary -, '
         'np.abs, np.sqrt(np.abs()), np.where (unmasked operands only), '
         'copyall on/off.  Oracle: the same source executed on numpy / '
-        'numpy.ma copies of the arrays; masks equal, unmasked values agree '
-        '(same tolerances); with copyall the other variables are '
+        'numpy.ma copies of the arrays; masks equal (cells whose expected '
+        'value is not finite: either), unmasked values agree (tolerance of '
+        'the coarser of the two result dtypes); with copyall the other variables are '
         'bit-identical.  mask (3/10): non-empty subset of less, less_equal, '
         'greater, greater_equal, values, equal, invalid, where (boolean array '
         'shaped like one variable; given with dims as tuple or list, without '
@@ -576,9 +577,18 @@ def _eval_step(r, case, objs, later):
         ev = np.asarray(np.ma.getdata(exp))
         em = np.ma.getmaskarray(exp) if isinstance(
             exp, np.ma.MaskedArray) else np.zeros(ev.shape, bool)
-        for bad in cmp_cells(out.variables[t], ev, em,
-                             np.zeros(ev.shape, bool),
-                             'eval %r -> %s' % (src, t), tol_for(ev.dtype)):
+        # result dtype is not judged (0-d operands collapse to numpy scalars
+        # with numpy's own promotion): the tolerance follows the coarser of
+        # the two dtypes; a cell whose expected value is not finite may be
+        # masked or not (numpy.ma masks domain violations for arrays but not
+        # for collapsed 0-d scalars)
+        ldt = np.asarray(np.ma.getdata(out.variables[t][...])).dtype
+        nonfin = np.zeros(ev.shape, bool)
+        if ev.dtype.kind == 'f':
+            nonfin = ~np.isfinite(ev)
+        for bad in cmp_cells(out.variables[t], ev, em, nonfin & ~em,
+                             'eval %r -> %s' % (src, t),
+                             max(tol_for(ev.dtype), tol_for(ldt))):
             r.fail('eval-' + bad[0], bad[1],
                    klass='masked' if isinstance(exp, np.ma.MaskedArray)
                    else 'plain')
